@@ -371,6 +371,7 @@ def _stage_order(ck, repo):
     ok = len(dc) == 1 and lc is not None and av.cfg.can_reach(av.cfg_node(lc).id, av.cfg_node(dc[0]).id, skip_exc=True) and not av.cfg.can_reach(av.cfg_node(dc[0]).id, av.cfg_node(lc).id, skip_exc=True)
     ck.ob("argument_coercer: the argument hook runs after the value was coerced (type-level hooks are inside the literal coercer)", ok, a, dc[0] if dc else a.node, construct="order:argument")
     ck.ob("argument_coercer: the argument hook's return value is the argument's value", dc and isinstance(av.stmt_of(dc[0]), ast.Return), a, dc[0] if dc else a.node, construct="order:argument-value")
+    _argument_hooks_on_every_value(ck, a)
     r = repo.func("tartiflette/resolver/factory.py", "resolve_field_value_or_error")
     rv = FuncView(r)
     w = rv.maybe_call("wraps_with_directives")
@@ -455,3 +456,38 @@ def _bake_cascade(ck, repo):
         first = [c for c in fv.calls("bake_fields")]
         ck.ob("_bake_types: all types are baked before any member is (members look their types up)", bool(first) and fv.dominated_by(first[0], fv.enclosing_loops(tb[0])[0]), f, tb[0],
               construct="cascade:_bake_types:order")
+
+
+def _argument_hooks_on_every_value(ck, a):
+    """Path-outcome table of argument_coercer: a path that answers with a *value* (null included) and no errors, while the
+    argument carries directives, answers with what the on_argument_execution chain returned."""
+    from ..pathtab import outcome_rows, truth
+    av = FuncView(a)
+    dname = a.positional_params[5]
+    rows = outcome_rows(av)
+    n = 0
+    for r in rows:
+        ret = r["ret"]
+        if r["exit"] != "return_exit" or ret is None:
+            continue
+        # a freshly built result is not the undefined value, and the undefined value is
+        if any((c.replace(" ", "").startswith("is_invalid_value(CoercionResult(") and o == "T") or (c.replace(" ", "") == "is_invalid_value(UNDEFINED_VALUE)" and o == "F")
+               for c, o in r["conds"]):
+            continue
+        core = ret.value if isinstance(ret, ast.Await) else ret
+        if not isinstance(core, ast.Call):
+            continue
+        if any(c.replace(" ", "") == f"is_invalid_value({unparse(ret)})".replace(" ", "") and o == "T" for c, o in r["conds"]):
+            continue  # the undefined value handed on, not a value
+        name = callee_last(core)
+        is_value = (name == "CoercionResult" and any(k.arg == "value" for k in core.keywords) and not any(k.arg == "errors" for k in core.keywords)) or name == "literal_coercer"
+        if not is_value:
+            continue
+        n += 1
+        has_dirs = truth(r, dname)
+        errs = [(c, o) for c, o in r["conds"] if c.replace(" ", "").endswith("[1]") or c.strip() in ("errors", "not errors")]
+        with_errors = any((o == "T") != c.strip().startswith("not ") for c, o in errs)
+        ck.ob("argument_coercer: a value (null included) leaves without the argument hooks only when there are no directives or coercion failed",
+              has_dirs == "F" or with_errors, a, r["last"] or a.node, construct="order:argument-every-value",
+              detail=f"`return {unparse(ret)[:70]}` is reached without asking whether the argument carries directives: its on_argument_execution hooks never see this value")
+    ck.count("argument_value_paths_without_hooks", n, 2)
